@@ -85,6 +85,7 @@ def cases(tier, seed):
     for i in range(12 if tier == "quick" else 60):
         yield {"kind": "fnarg", "seed": seed, "idx": i}
     yield {"kind": "multi", "hashseeds": 6 if tier == "quick" else 16}
+    yield {"kind": "proxy"}
 
 
 def all_edges(n, form):
@@ -654,6 +655,56 @@ def run_multi(case, out, fail):
         out["nontrivial"].append("multi_package")
 
 
+PROXY_MOD = """import twosigma.memento as m
+
+class Proxy:
+    # answers every attribute (a remote-object stub, a mock)
+    def __getattr__(self, name):
+        return Proxy()
+
+    def __call__(self, *args, **kw):
+        return 0
+
+SERVER = Proxy()
+
+@m.memento_function
+def n1(x):
+    return x
+
+@m.memento_function
+def n0(x):
+    if x < -1000:
+        SERVER.lookup(x)
+    return n1(x)
+"""
+
+
+def proxy_child(arg):
+    d = os.path.join(arg["root"], "vproxy")
+    os.makedirs(d)
+    open(os.path.join(d, "__init__.py"), "w").close()
+    with open(os.path.join(d, "a.py"), "w") as f:
+        f.write(PROXY_MOD)
+    sys.path.insert(0, arg["root"])
+    env.set_env(os.path.join(arg["root"], "env"), default_storage=env.mem_backend())
+    a = importlib.import_module("vproxy.a")
+    return observe(a.n0)
+
+
+def run_proxy(case, out, fail):
+    """A function mentions a global that answers every attribute: its dependencies are still computed (in finite time)."""
+    with env.Scratch() as sc:
+        try:
+            got = procs.in_child(proxy_child, {"root": sc.path("p")}, timeout=120)
+        except procs.ChildFailed as e:
+            return fail("computing dependencies of a reference graph " + ("does not end" if e.kind == "timeout" else "raises"),
+                        "a function that mentions a global answering every attribute: %s" % str(e)[-300:])
+        out["obs"]["functions_compared"] += 1
+        if got["transitive"] != ["n1"] or got["direct"] != ["n1"]:
+            fail("transitive memento dependencies differ from reachability in the reference graph",
+                 "a function that mentions a global answering every attribute: reports %s" % got)
+
+
 def run_case(case):
     out = {"viol": [], "nontrivial": [], "obs": collections.Counter()}
 
@@ -661,7 +712,7 @@ def run_case(case):
         if len(out["viol"]) < 6:
             out["viol"].append({"sig": sig, "msg": msg})
 
-    {"small": run_small, "random": run_random, "fnarg": run_fnarg, "multi": run_multi}[case["kind"]](case, out, fail)
+    {"small": run_small, "random": run_random, "fnarg": run_fnarg, "multi": run_multi, "proxy": run_proxy}[case["kind"]](case, out, fail)
     out["obs"] = dict(out["obs"])
     return out
 
